@@ -4,9 +4,13 @@ package main
 // fault script.  Every Read / WriteTo call is a scheduler yield point.
 
 import (
+	"bufio"
+	"bytes"
 	"context"
 	"errors"
 	"io"
+	"strings"
+	"testing/iotest"
 
 	"github.com/goark/go-cvss/cvsserr"
 	"simrt"
@@ -21,6 +25,14 @@ type Fault struct {
 	ErrKind     int   `json:"err_kind,omitempty"`      // index into injectedErrors
 	ErrWithData bool  `json:"err_with_data,omitempty"` // the error accompanies the chunk that ends at offset k
 	WriterTo    bool  `json:"writer_to,omitempty"`     // reader also implements io.WriterTo
+	Transient   bool  `json:"transient,omitempty"`     // the error is returned once; later calls carry on delivering data
+	// Std > 0: not the scripted reader but a standard-library reader over the same
+	// content (benign only): 1 strings.Reader, 2 bytes.Reader, 3 bytes.Buffer,
+	// 4 io.SectionReader, 5 bufio.Reader, 6 io.MultiReader of two halves,
+	// 7 io.LimitReader over content+junk, 8 strings.Reader with a consumed prefix,
+	// 9 bytes.Reader after Seek past a prefix, 10 iotest.OneByteReader,
+	// 11 iotest.DataErrReader, 12 iotest.HalfReader
+	Std int `json:"std,omitempty"`
 }
 
 type injected struct{ msg string }
@@ -43,8 +55,8 @@ var injectedErrorNames = []string{"own", "unexpected-eof", "closed-pipe", "cance
 
 // faultStats counts what actually fired.
 type faultStats struct {
-	Reads, Stalls, ShortChunks, EOFWithData, ErrFired, ErrWithData, WriterToCalls, WriterToShort, NilReader, OneByte uint64
-	ErrKinds                                                                                                         [8]uint64
+	Reads, Stalls, ShortChunks, EOFWithData, ErrFired, ErrWithData, WriterToCalls, WriterToShort, NilReader, OneByte, StdReaders uint64
+	ErrKinds                                                                                                                     [8]uint64
 }
 
 func (a *faultStats) add(b *faultStats) {
@@ -58,6 +70,7 @@ func (a *faultStats) add(b *faultStats) {
 	a.WriterToShort += b.WriterToShort
 	a.NilReader += b.NilReader
 	a.OneByte += b.OneByte
+	a.StdReaders += b.StdReaders
 	for i := range a.ErrKinds {
 		a.ErrKinds[i] += b.ErrKinds[i]
 	}
@@ -87,7 +100,7 @@ func (r *simReader) nextChunk() int {
 func (r *simReader) Read(p []byte) (int, error) {
 	simrt.Yield(simrt.SiteIO + 1)
 	r.st.Reads++
-	if r.failed {
+	if r.failed && !r.f.Transient {
 		return 0, r.err()
 	}
 	if len(p) == 0 {
@@ -97,7 +110,10 @@ func (r *simReader) Read(p []byte) (int, error) {
 	if r.f.ErrAt >= 0 && r.f.ErrAt < limit {
 		limit = r.f.ErrAt
 	}
-	if r.f.ErrAt >= 0 && r.off >= limit && r.off >= min(r.f.ErrAt, len(r.data)) {
+	if r.failed && r.f.Transient {
+		// the one error has been delivered: carry on as a healthy reader
+		limit = len(r.data)
+	} else if r.f.ErrAt >= 0 && r.off >= limit && r.off >= min(r.f.ErrAt, len(r.data)) {
 		// exactly ErrAt bytes (or everything, when ErrAt >= len) delivered
 		r.failed = true
 		r.st.ErrFired++
@@ -125,14 +141,14 @@ func (r *simReader) Read(p []byte) (int, error) {
 	}
 	copy(p, r.data[r.off:r.off+n])
 	r.off += n
-	if r.f.ErrAt >= 0 && r.off >= limit && r.f.ErrWithData && n > 0 {
+	if !r.failed && r.f.ErrAt >= 0 && r.off >= limit && r.f.ErrWithData && n > 0 {
 		r.failed = true
 		r.st.ErrFired++
 		r.st.ErrWithData++
 		r.st.ErrKinds[r.f.ErrKind%len(injectedErrors)]++
 		return n, r.err()
 	}
-	if r.off >= len(r.data) && r.f.ErrAt < 0 && r.f.EOFWithData {
+	if r.off >= len(r.data) && (r.f.ErrAt < 0 || r.failed) && r.f.EOFWithData {
 		r.st.EOFWithData++
 		return n, io.EOF
 	}
@@ -181,12 +197,54 @@ func newSimReader(data string, f Fault, st *faultStats) io.Reader {
 		st.NilReader++
 		return nil
 	}
+	if f.Std > 0 {
+		st.StdReaders++
+		return stdReader(data, f.Std)
+	}
 	sr := simReader{data: []byte(data), f: f, st: st}
 	if f.WriterTo {
 		return &simReaderWT{sr}
 	}
 	return &sr
 }
+
+// stdReader: readers from the standard library over the same content.
+func stdReader(data string, kind int) io.Reader {
+	const junk = "JUNK-PREFIX\n"
+	switch kind {
+	case 1:
+		return strings.NewReader(data)
+	case 2:
+		return bytes.NewReader([]byte(data))
+	case 3:
+		return bytes.NewBufferString(data)
+	case 4:
+		return io.NewSectionReader(strings.NewReader(junk+data+junk), int64(len(junk)), int64(len(data)))
+	case 5:
+		return bufio.NewReaderSize(strings.NewReader(data), 16)
+	case 6:
+		h := len(data) / 2
+		return io.MultiReader(strings.NewReader(data[:h]), strings.NewReader(data[h:]))
+	case 7:
+		return io.LimitReader(strings.NewReader(data+junk), int64(len(data)))
+	case 8:
+		r := strings.NewReader(junk + data)
+		_, _ = io.CopyN(io.Discard, r, int64(len(junk)))
+		return r
+	case 9:
+		r := bytes.NewReader([]byte(junk + data))
+		_, _ = r.Seek(int64(len(junk)), io.SeekStart)
+		return r
+	case 10:
+		return iotest.OneByteReader(strings.NewReader(data))
+	case 11:
+		return iotest.DataErrReader(strings.NewReader(data))
+	default:
+		return iotest.HalfReader(strings.NewReader(data))
+	}
+}
+
+const nStdReaders = 12
 
 // willFail reports whether the script makes the read of data fail.
 func (f Fault) willFail() bool { return f.Nil || f.ErrAt >= 0 }
@@ -195,6 +253,10 @@ func (f Fault) willFail() bool { return f.Nil || f.ErrAt >= 0 }
 // only benign scripts (chunking, stalls, EOF conventions).
 func genFault(r *rng, n int, errOK bool) Fault {
 	f := Fault{ErrAt: -1}
+	if !errOK && r.chance(1, 5) || errOK && r.chance(1, 12) {
+		f.Std = r.between(1, nStdReaders)
+		return f
+	}
 	switch r.intn(6) {
 	case 0:
 		// all at once
@@ -225,6 +287,7 @@ func genFault(r *rng, n int, errOK bool) Fault {
 		f.ErrAt = r.intn(n + 1)
 		f.ErrKind = r.intn(len(injectedErrors))
 		f.ErrWithData = r.chance(1, 3)
+		f.Transient = r.chance(1, 4)
 	}
 	if errOK && r.chance(1, 25) {
 		f = Fault{Nil: true, ErrAt: -1}
